@@ -3,7 +3,7 @@ from __future__ import annotations
 import ast
 from collections.abc import Sequence
 
-from pytestarch.eval_structure.types import Import
+from pytestarch.eval_structure.types import Import, get_parent_modules
 from pytestarch.eval_structure_generation.file_import.import_types import (
     AbsoluteImport,
     NamedModule,
@@ -104,6 +104,11 @@ class ImportConverter:
                             absolute_import_prefix,
                             all_internal_modules,
                         ),
+                    )
+                elif module.module is None and alias.name == "*":
+                    # "from . import *" imports the package itself, "*" is not the name of a module
+                    new_import = AbsoluteImport(
+                        module_name, get_parent_modules(module_name)[-module.level]
                     )
                 else:
                     new_import = RelativeImport(
